@@ -1,9 +1,12 @@
 import GeffModel.Proto
 import GeffModel.Segmentation
+import GeffModel.PyDoSeg
 open Lean Geff Geff.Proto Geff.Np Geff.Seg
 
 /-! JSON-lines driver of C19.  `"op"` selects the function:
-`valid_seg_id`, `axes_match`, `in_bounds`, `time_points`, `coords`.
+`valid_seg_id`, `axes_match`, `in_bounds`, `time_points`, `coords`, and `prim` (one primitive of
+`GeffModel/PyDoSeg.lean`, selected by `"f"`, evaluated also at the points the guards of the source
+exclude — compared with Python / numpy by the primitive stream of the harness).
 A dyadic number is `[m, e]` (= m / 2^e), an axis `{"type": str|null, "max": dy|null}`, a volume
 `"shape": [..], "flat": [labels in C order]`. -/
 
@@ -67,6 +70,71 @@ def propOf (j : Json) : Except String (String × PropInfo) := do
   let miss ← optOf (listOf (fun x => x.getBool?)) (← a[1]!.getObjVal? "missing")
   return (name, ⟨dt, miss⟩)
 
+/-! ## the primitives of the generated code (`GeffModel/PyDoSeg.lean`), one by one -/
+
+def outOf {α} (f : α → Json) : Outcome α → Json
+  | .ok v => Json.mkObj [("ok", f v)]
+  | .other n => Json.mkObj [("exc", Json.str n)]
+
+def intsJson (l : List Int) : Json := Json.arr (l.map intJson).toArray
+def natJson (n : Nat) : Json := intJson n
+def dyJson (a : Dy) : Json := Json.arr #[intJson a.m, natJson a.e]
+
+def handlePrim (j : Json) : Except String Json := do
+  let f ← (← j.getObjVal? "f").getStr?
+  match f with
+  | "npIndex" =>
+    return outOf intJson (npIndex (← volOf j) (← getIntList (← j.getObjVal? "idx")))
+  | "npUniqueTake" =>
+    let r := Geff.PyDoSeg.npUniqueTake (← volOf j) (← getInt? (← j.getObjVal? "t")) (← natOf (← j.getObjVal? "axis"))
+    return outOf intsJson r
+  | "pyInt" => return intJson (Geff.PyDoSeg.pyInt (← dyOf (← j.getObjVal? "x")))
+  | "dyTruthy" => return Json.bool (Geff.PyDoSeg.dyTruthy (← dyOf (← j.getObjVal? "x")))
+  | "allZipStrict" =>
+    let xs ← listOf dyOf (← j.getObjVal? "xs")
+    let sh ← natListOf (← j.getObjVal? "shape")
+    return outOf Json.bool (Geff.PyDoSeg.allZipStrict
+      (fun (c : Dy) (dim : Nat) => (Dy.le (Dy.ofInt 0) c && Dy.lt c (Dy.ofInt dim))) xs sh)
+  | "mapZipStrict" =>
+    let a ← listOf dyOf (← j.getObjVal? "a")
+    let b ← listOf dyOf (← j.getObjVal? "b")
+    return outOf (fun l => Json.arr (l.map dyJson).toArray)
+      (Geff.PyDoSeg.mapZipStrict (fun (c : Dy) (s : Dy) => Dy.mul c s) a b)
+  | "dd" =>
+    -- a defaultdict(list): the appends in order, then the reads
+    let apps ← getIntPairs (← j.getObjVal? "appends")
+    let reads ← getIntList (← j.getObjVal? "reads")
+    let d := apps.foldl (fun d p => Geff.PyDoSeg.ddAppend d p.1 p.2) []
+    return Json.mkObj [("len", natJson d.length), ("keys", intsJson (d.map (·.1))),
+      ("reads", Json.arr (reads.map (fun k => intsJson (Geff.PyDoSeg.ddGet d k))).toArray)]
+  | "dictSetKey" =>
+    let ks ← getIntList (← j.getObjVal? "keys")
+    let d := ks.foldl Geff.PyDoSeg.dictSetKey []
+    return Json.mkObj [("len", natJson d.length), ("keys", intsJson d)]
+  | "optlist" =>
+    let x ← optOf (listOf (fun b => b.getBool?)) (← j.getObjVal? "x")
+    return Json.mkObj [("truthy", Json.bool (Geff.PyDoSeg.truthy x)), ("len", outOf natJson (Geff.PyDoSeg.pyLen x)),
+      ("iter", outOf (fun l => Json.arr (l.map Json.bool).toArray) (Geff.PyDoSeg.pyIter x)),
+      ("any", outOf Json.bool (Geff.PyDoSeg.pyAny x))]
+  | "listGet" =>
+    return outOf natJson (Geff.PyDoSeg.listGet (← natListOf (← j.getObjVal? "l")) (← natOf (← j.getObjVal? "i")))
+  | "dict" =>
+    let keys ← listOf (fun x => x.getStr?) (← j.getObjVal? "keys")
+    let k ← (← j.getObjVal? "k").getStr?
+    let d := keys.zip (List.range keys.length)
+    return Json.mkObj [("contains", Json.bool (Geff.PyDoSeg.dictContains d k)),
+      ("get", outOf natJson (Geff.PyDoSeg.dictGet d k))]
+  | "pyIndexOf" =>
+    let axes ← axesOf j
+    let i ← natOf (← j.getObjVal? "i")
+    match axes with
+    | some l =>
+      match l[i]? with
+      | some a => return outOf natJson (Geff.PyDoSeg.pyIndexOf axes a)
+      | none => throw "axis position out of range"
+    | none => return outOf natJson (Geff.PyDoSeg.pyIndexOf none ⟨none, none⟩)
+  | _ => throw s!"unknown primitive {f}"
+
 def handle (j : Json) : Except String Json := do
   let op ← (← j.getObjVal? "op").getStr?
   match op with
@@ -90,6 +158,7 @@ def handle (j : Json) : Except String Json := do
     let ids ← getIntList (← j.getObjVal? "ids")
     let sc ← optOf (listOf dyOf) (← j.getObjVal? "scale")
     return outJson (hasSegIdsAtCoords v cs ids sc)
+  | "prim" => handlePrim j
   | _ => throw s!"unknown op {op}"
 
 def main : IO Unit := Proto.run handle
